@@ -288,7 +288,24 @@ def factory_denotation(f: Func, slots: Dict[str, str], index=None) -> Dict[str, 
               for e in w.events if e.kind == 'raise']
     lookups = [canon(w.expand(e.node)) for e in w.events if e.kind == 'load'
                and src(e.node.value).endswith('_function_registry')]
-    return {'order': order, 'check': check, 'ret': ret, 'raises': raises, 'lookups': lookups}
+    # the keyword mapping is only re-bound (filtered by key): an item store / in-place update
+    # changes a configured value between the request and the partial application
+    from ..guards import MUTATORS
+    edits = []
+    kw = f.node.args.kwarg.arg if f.node.args.kwarg is not None else 'kwargs'
+    for e in w.events:
+        t = None
+        if e.kind in ('store', 'augstore', 'delete'):
+            t = e.target
+        elif e.kind == 'call' and isinstance(e.node.func, ast.Attribute) and \
+                e.node.func.attr in MUTATORS | {'__setitem__', '__delitem__'}:
+            t = e.node.func
+        while isinstance(t, (ast.Subscript, ast.Attribute)):
+            t = t.value
+        if isinstance(t, ast.Name) and t.id == kw:
+            edits.append(canon(e.stmt if e.stmt is not None else e.node)[:160])
+    return {'order': order, 'check': check, 'ret': ret, 'raises': raises, 'lookups': lookups,
+            'edits': edits}
 
 
 def _str_eval(e: ast.AST, env: Dict[str, str], mod) -> str:
@@ -693,6 +710,21 @@ def composite_parts(index: RepoIndex, rep, rule: str) -> None:
                           f'the same key are merged, so a composite configured with the same '
                           f'component twice (different parameters) loses one of its parts')
             continue
+        filt = None
+        if isinstance(x, (ast.ListComp, ast.GeneratorExp)) and \
+                any(g.ifs for g in x.generators):
+            filt = next(c for g in x.generators for c in g.ifs)
+        elif isinstance(x, ast.Call) and src(x.func) == 'map' and len(x.args) == 2 and \
+                isinstance(x.args[1], ast.Call) and src(x.args[1].func) in (
+                    'filter', 'itertools.filterfalse', 'filterfalse', 'itt.filterfalse'):
+            filt = x.args[1].args[0] if x.args[1].args else x.args[1]
+        if filt is not None:
+            rep.violation(rule, FACTORY, 'process_reserved_keys', line, src(e)[:160],
+                          f'the configured entries of `{key}` are filtered by '
+                          f'`{src(filt)[:80]}` before the parts are built: an entry the filter '
+                          f'drops is a configured part the composite no longer has (a reward '
+                          f'that is not the sum of its parts, a termination that never fires)')
+            continue
         if fn_ is None:
             rep.undecided(rule, f'{FACTORY}:process_reserved_keys:{key}',
                           f'converter `{src(e)[:80]}` outside the grammar')
@@ -833,6 +865,13 @@ def factory_rules(index: RepoIndex, rep, rule: str) -> None:
         rep.check(not diff, rule, ROLE_FILE[r], 'factory', f.node.lineno,
                   f'{r} factory', f'the {r} factory differs from its five siblings beyond the '
                   f'registry and the error text (in {diff})', f'{r} factory sibling-equal')
+    for r, f in sorted(facts.items()):
+        rep.check(not norm[r]['edits'], rule, ROLE_FILE[r], 'factory', f.node.lineno,
+                  '; '.join(norm[r]['edits'])[:200],
+                  f'the {r} factory changes a configured value before binding it '
+                  f'(`{(norm[r]["edits"] or [""])[0][:100]}`): the component obtained by name does '
+                  f'not receive exactly the parameters it was configured with',
+                  f'{r} factory passes values through')
     f = facts['reset']
     w = walk_function(f.node)
     order = []
